@@ -575,6 +575,7 @@ def register(reg):
         EXC + 'LatexWalkerParseError.__init__', EXC + 'LatexWalkerLocatedError.__init__', EXC + 'LatexWalkerError.__init__'})
     reg.add_loop(LoopContract(VAP + '.parse_args', 0, invariant=[('position-stays-inside-the-string', 'old(pos) <= pos and pos <= len(w.s)')],
                               variant='len(w.s) - pos'))
+
     for k in units:
         contracts.REPLAYERS[k] = replay
     contracts.EXTRA_ASSUMPTIONS['C16'] = [
@@ -582,7 +583,7 @@ def register(reg):
         "call then agrees with the new parser follows because it IS one call of that parser (clause 'one_call_with')",
         "MacroStandardArgsParser.parse_args' own argument loop is not proved equal to LatexArgumentsParser on all inputs (a "
         "two-program equivalence); the spellings are compared by the per-slot argument letters they produce",
-        "get_token: only the composition make_token_reader(pos).peek_token(sub-state) is checked"]
+        "get_token (a thin composition make_token_reader(pos).peek_token(derived state)) has no unit"]
     return {'C16': units}
 
 
